@@ -222,9 +222,10 @@ def saturation_errors(ns, d, x, y):
     if len(raw) != len(y):
         return None
     for i, r in enumerate(raw):
-        if r > 32768.5 and y[i] != 32767:
+        # (from the first value that no longer fits: 32768 itself, however the fraction below it is treated)
+        if r >= 32767.5 and y[i] != 32767:
             return {"index": i, "unsaturated": r, "observed": float(y[i]), "expected": 32767}
-        if r < -32769.5 and y[i] not in (-32768, -32767):
+        if r <= -32768.5 and y[i] not in (-32768, -32767):
             return {"index": i, "unsaturated": r, "observed": float(y[i]), "expected": "-32768 (or -32767)"}
     return None
 
